@@ -10,7 +10,7 @@ COQ_IMPORTS = 'From PB Require Import model.M_join model.M_perdict.\n'
 COQ_PRELUDE = ''
 PER_FILE = 500
 CASE_TIMEOUT = 5
-RULE = ('cases: 1-4 named inputs, each a scalar or a unique-key table over 1 or 2 key columns (keys from a small universe of strings / ints / '
+RULE = ('cases: 1-4 named inputs, each a scalar or a unique-key table over 1 or 2 key columns (`on` in any order, table columns in any order; keys from a small universe of strings / ints / '
         'floats / None so that overlap, disjointness and emptiness all occur; 1 vs 1.0 across tables), value column named after the input, '
         '"data", or a single other column, or with extra columns; any subset of inputs named in defaults (values 0-8 or None); previously '
         'computed values supplied as a data table over any keys, expiry absent / scalar / table with cells {2000-01-01, 2999-01-01, None} '
@@ -25,7 +25,7 @@ EXPLANATION = ('theorems C20_* (coq/props/C20.v) hold for every f, every list of
                'exactly once (trace = rows needing evaluation, NoDup). The correspondence ties the model to _item / join / _value_output on every run.')
 TRUSTED = ['modelled, not verified: _item column selection, dictable * and / (their meaning is C02), dictable.sort, Dict.__getitem__(callable) / kwargs_support',
            'today is not modelled: expiries are 2000-01-01 / 2999-01-01 / None']
-ASSUMPTIONS = ['every table input carries all `on` columns and has unique keys; `on` has 1 or 2 columns listed in alphabetical order',
+ASSUMPTIONS = ['every table input carries all `on` columns and has unique keys; `on` has 1 or 2 columns, in any order, with names before / between / after the value column names; "sorted by key" = lexicographic by cmp in the order of `on`',
                'no renames, constant defaults, if_none=False, output_is_input=True, include_inputs=False, function without .output',
                'when the join is empty the call returns the supplied data (or None) instead of an empty table: observed and modelled, not judged by the oracle']
 EXHAUSTIVE = {'quick': False, 'thorough': False}
@@ -71,12 +71,16 @@ def fcode(vals):
     for v in reversed(vals): r = digit(v) + 10 * r
     return r
 
-def mk_table(on, rows, valcol, vals, extra=None):
+def mk_table(on, rows, valcol, vals, extra=None, order=0):
+    """order: 0 = key columns in `on` order then the value; 1 = value first, key columns reversed; 2 = key columns reversed, then value"""
     nans = {}
     cols = {c: [py_cell(k[i], nans) for k, _ in rows] for i, c in enumerate(on)}
     cols[valcol] = list(vals)
     for c, v in (extra or {}).items(): cols[c] = [v] * len(rows)
-    return dictable(dict(cols))
+    names = list(cols)
+    if order == 1: names = [valcol] + [c for c in reversed(on)] + [c for c in names if c != valcol and c not in on]
+    elif order == 2: names = [c for c in reversed(on)] + [c for c in names if c not in on]
+    return dictable({c: cols[c] for c in names})
 
 def build_inputs(case):
     on = case['on']; inputs = {}; defaults = {}
@@ -88,17 +92,18 @@ def build_inputs(case):
         else:
             lay = a.get('layout', 'named')
             vals = [v for _, v in a['rows']]
-            if lay == 'named': t = mk_table(on, a['rows'], n, vals)
-            elif lay == 'data': t = mk_table(on, a['rows'], 'data', vals)
-            elif lay == 'other': t = mk_table(on, a['rows'], 'zz_' + n, vals)
-            else: t = mk_table(on, a['rows'], n, vals, {'zz1': 77, 'zz2': 'q'})
+            o = a.get('order', 0)
+            if lay == 'named': t = mk_table(on, a['rows'], n, vals, order=o)
+            elif lay == 'data': t = mk_table(on, a['rows'], 'data', vals, order=o)
+            elif lay == 'other': t = mk_table(on, a['rows'], 'zz_' + n, vals, order=o)
+            else: t = mk_table(on, a['rows'], n, vals, {'zz1': 77, 'zz2': 'q'}, order=o)
             inputs[n] = t
     if case['data'] is not None:
-        inputs['data'] = mk_table(on, case['data']['rows'], 'data', [v for _, v in case['data']['rows']])
+        inputs['data'] = mk_table(on, case['data']['rows'], 'data', [v for _, v in case['data']['rows']], order=case['data'].get('order', 0))
     x = case['expiry']
     if x is not None:
         if 'scalar' in x: inputs['expiry'] = EXPV[x['scalar']]
-        else: inputs['expiry'] = mk_table(on, x['rows'], x.get('layout', 'data'), [EXPV[e] for _, e in x['rows']])
+        else: inputs['expiry'] = mk_table(on, x['rows'], x.get('layout', 'data'), [EXPV[e] for _, e in x['rows']], order=x.get('order', 0))
     return inputs, (defaults if (defaults or case.get('defaults_given')) else None)
 
 def obs_key(k): return [enc(c, False) for c in k]
@@ -261,7 +266,7 @@ def key_variant(rng, k):
 def universe(rng, nk):
     if nk == 1:
         return rng.sample(UNI1, rng.choice([3, 4, 5, 6]))
-    a = [['s', 'x'], ['s', 'y'], ['i', 1]]; b = [['i', 1], ['i', 2], None]
+    a = [['s', 'x'], ['s', 'y'], ['i', 1], ['i', 2]]; b = [['i', 1], ['i', 2], None, ['s', 'x']]
     allk = [[p, q] for p in a for q in b]
     return rng.sample(allk, rng.choice([3, 4, 5, 6]))
 def rand_rows(rng, uni, val):
@@ -271,8 +276,10 @@ def rand_rows(rng, uni, val):
     return [[key_variant(rng, k), val(rng)] for k in ks]
 def rand_pv(rng): return rng.choice([None, 0, 1, 2, 3, 4, 5, 6, 7, 8])
 
+KEYNAMES = ['k', 'm', 'B', 'zk', 'aa', 'c9']      # before / between / after the value columns a b c d data expiry zz_*
 def rand_case(rng, stream='rand'):
-    nk = rng.choice([1, 1, 2]); on = ['k', 'm'][:nk]
+    nk = rng.choice([1, 1, 2, 2])
+    on = rng.sample(KEYNAMES, nk)            # any order: 'sorted by key' = lexicographic in the order of `on`
     uni = universe(rng, nk)
     n = rng.choice([1, 2, 2, 3, 3, 4])
     args = []
@@ -280,17 +287,17 @@ def rand_case(rng, stream='rand'):
         if rng.random() < 0.3:
             a = {'name': name, 'kind': 'scalar', 'v': rand_pv(rng)}
         else:
-            a = {'name': name, 'kind': 'table', 'rows': rand_rows(rng, uni, rand_pv), 'layout': rng.choice(['named', 'named', 'data', 'other', 'extra'])}
+            a = {'name': name, 'kind': 'table', 'rows': rand_rows(rng, uni, rand_pv), 'layout': rng.choice(['named', 'named', 'data', 'other', 'extra']), 'order': rng.choice([0, 0, 1, 2])}
         if rng.random() < 0.35:
             a['default'] = {'v': rand_pv(rng)}
         args.append(a)
     case = {'stream': stream, 'on': on, 'args': args, 'data': None, 'expiry': None}
     r = rng.random()
     if r < 0.55:
-        case['data'] = {'rows': rand_rows(rng, uni, lambda g: g.choice([None, 500, 600, 700]))}
+        case['data'] = {'rows': rand_rows(rng, uni, lambda g: g.choice([None, 500, 600, 700])), 'order': rng.choice([0, 1, 2])}
     r = rng.random()
     if r < 0.45:
-        case['expiry'] = {'rows': rand_rows(rng, uni, lambda g: g.choice(['past', 'past', 'future', 'none'])), 'layout': rng.choice(['data', 'expiry'])}
+        case['expiry'] = {'rows': rand_rows(rng, uni, lambda g: g.choice(['past', 'past', 'future', 'none'])), 'layout': rng.choice(['data', 'expiry']), 'order': rng.choice([0, 1, 2])}
     elif r < 0.6:
         case['expiry'] = {'scalar': rng.choice(['past', 'future', 'none'])}
     if rng.random() < 0.1: case['defaults_given'] = True
